@@ -1,0 +1,146 @@
+//go:build verif
+
+package config
+
+// Contracts checked by /verif/engine (govc). Comment-only file: no code is compiled from it.
+
+// ---------------------------------------------------------------------------------------------
+// C09: rule {} match / ignore blocks select rules by their documented boolean meaning.
+// Regexp matching and duration parsing are uninterpreted: reMatch(pattern, input), durParses(s), durOf(s), dmOf(s).
+
+//@ spec func durParses(s string) bool
+//@ spec func durOf(s string) time.Duration
+//@ spec func dmOf(s string) durationMatch
+//@ spec func cmdOf(ctx context.Context) ContextCommandVal
+
+//@ func parseDuration
+//@   trusted
+//@   ensures (result1 == nil) == durParses(d) && (result1 == nil ==> result0 == durOf(d)) && (result1 != nil ==> result0 == 0)
+
+//@ func parseDurationMatch
+//@   trusted
+//@   ensures dm == dmOf(expr)
+
+//@ func commandFromContext
+//@   trusted
+//@   ensures cmd == cmdOf(ctx)
+
+//@ func strictRegex [C09]
+//@   ensures result != nil && rePattern(result) == "^" + s + "$"
+
+//@ func parseMatchOperation [C09]
+//@   ensures expr == "<" ==> result0 == opLess && result1 == nil
+//@   ensures expr == "<=" ==> result0 == opLessEqual && result1 == nil
+//@   ensures expr == "=" ==> result0 == opEqual && result1 == nil
+//@   ensures expr == "!=" ==> result0 == opNotEqual && result1 == nil
+//@   ensures expr == ">=" ==> result0 == opMoreEqual && result1 == nil
+//@   ensures expr == ">" ==> result0 == opMore && result1 == nil
+//@   ensures !(expr == "<" || expr == "<=" || expr == "=" || expr == "!=" || expr == ">=" || expr == ">") ==> result1 != nil
+//@   safe
+
+//@ spec func dmMatch(dm durationMatch, d time.Duration) bool =
+//@      (dm.op == opLess && d < dm.dur) || (dm.op == opLessEqual && d <= dm.dur) || (dm.op == opEqual && d == dm.dur) ||
+//@      (dm.op == opNotEqual && d != dm.dur) || (dm.op == opMoreEqual && d >= dm.dur) || (dm.op == opMore && d > dm.dur)
+
+//@ func durationMatch.isMatch [C09]
+//@   ensures result == dmMatch(dm, dur)
+//@   safe
+
+//@ spec func stOK(s string, st discovery.ChangeType) bool =
+//@      s == "any" || (s == "added" && st == discovery.Added) || (s == "modified" && st == discovery.Modified) ||
+//@      (s == "renamed" && st == discovery.Moved) || (s == "removed" && st == discovery.Removed) || (s == "unmodified" && st == discovery.Noop)
+//@ spec func stateAny(states []string, st discovery.ChangeType) bool = exists i int :: 0 <= i && i < len(states) && stOK(states[i], st)
+
+//@ func stateMatches [C09]
+//@   ensures result == stateAny(states, state)
+//@   loop 1 invariant 0 <= iter && iter <= len(states)
+//@   loop 1 invariant forall i int :: 0 <= i && i < iter ==> !stOK(states[i], state)
+//@   safe
+
+//@ spec func anchored(p string) string = "^" + p + "$"
+//@ spec func cmdOK(m Match, cmd ContextCommandVal) bool = m.Command == nil || cmd == *m.Command
+//@ spec func stateOK(m Match, e discovery.Entry) bool = len(m.State) == 0 || stateAny(m.State, e.State)
+//@ spec func kindOK(m Match, e discovery.Entry) bool = m.Kind == "" ||
+//@      ((e.Rule.AlertingRule != nil ==> m.Kind == "alerting") && (e.Rule.RecordingRule != nil ==> m.Kind == "recording"))
+//@ spec func pathOK(m Match, path string) bool = m.Path == "" || reMatch(anchored(m.Path), path)
+//@ spec func nameOK(m Match, e discovery.Entry) bool = m.Name == "" ||
+//@      ((e.Rule.AlertingRule != nil ==> reMatch(anchored(m.Name), e.Rule.AlertingRule.Alert.Value)) &&
+//@       (e.Rule.RecordingRule != nil ==> reMatch(anchored(m.Name), e.Rule.RecordingRule.Record.Value)))
+//@ spec func forOK(c string, e discovery.Entry) bool = c == "" ||
+//@      (e.Rule.AlertingRule != nil && e.Rule.AlertingRule.For != nil &&
+//@       (durParses(e.Rule.AlertingRule.For.Value) ==> dmMatch(dmOf(c), durOf(e.Rule.AlertingRule.For.Value))))
+//@ spec func kffOK(c string, e discovery.Entry) bool = c == "" ||
+//@      (e.Rule.AlertingRule != nil && e.Rule.AlertingRule.KeepFiringFor != nil &&
+//@       (durParses(e.Rule.AlertingRule.KeepFiringFor.Value) ==> dmMatch(dmOf(c), durOf(e.Rule.AlertingRule.KeepFiringFor.Value))))
+
+// A match block holds iff every condition that is set holds. The label / annotation conditions are delegated to
+// isMatching (below); their answers are captured in ghost variables.
+//@ func Match.IsMatch [C09]
+//@   ghost labelRes bool
+//@   ghost annRes bool
+//@   after call MatchLabel.isMatching set labelRes = result0
+//@   after call MatchAnnotation.isMatching set annRes = result0
+//@   ensures result <==> cmdOK(m, cmdOf(ctx)) && stateOK(m, e) && kindOK(m, e) && pathOK(m, path) && nameOK(m, e) &&
+//@              (m.Label == nil || labelRes) && (m.Annotation == nil || annRes) && forOK(m.For, e) && kffOK(m.KeepFiringFor, e)
+
+// label { key value }: some label of the merged (group + rule) label view matches both anchored patterns.
+//@ func MatchLabel.isMatching [C09]
+//@   ghost lbls parser.YamlMap
+//@   after call Labels set lbls = result0
+//@   ensures result <==> (exists i int :: 0 <= i && i < len(lbls.Items) &&
+//@              reMatch(anchored(ml.Key), lbls.Items[i].Key.Value) && reMatch(anchored(ml.Value), lbls.Items[i].Value.Value))
+//@   loop 1 invariant 0 <= iter && iter <= len(lbls.Items)
+//@   loop 1 invariant rePattern(keyRe) == anchored(ml.Key) && rePattern(valRe) == anchored(ml.Value)
+//@   loop 1 invariant forall i int :: 0 <= i && i < iter ==>
+//@              !(reMatch(anchored(ml.Key), lbls.Items[i].Key.Value) && reMatch(anchored(ml.Value), lbls.Items[i].Value.Value))
+
+//@ func MatchAnnotation.isMatching [C09]
+//@   ensures result <==> (rule.AlertingRule != nil && rule.AlertingRule.Annotations != nil &&
+//@              (exists i int :: 0 <= i && i < len(rule.AlertingRule.Annotations.Items) &&
+//@                 reMatch(anchored(ma.Key), rule.AlertingRule.Annotations.Items[i].Key.Value) &&
+//@                 reMatch(anchored(ma.Value), rule.AlertingRule.Annotations.Items[i].Value.Value)))
+//@   loop 1 invariant 0 <= iter && iter <= len(rule.AlertingRule.Annotations.Items)
+//@   loop 1 invariant rePattern(keyRe) == anchored(ma.Key) && rePattern(valRe) == anchored(ma.Value)
+//@   loop 1 invariant forall i int :: 0 <= i && i < iter ==>
+//@              !(reMatch(anchored(ma.Key), rule.AlertingRule.Annotations.Items[i].Key.Value) &&
+//@                reMatch(anchored(ma.Value), rule.AlertingRule.Annotations.Items[i].Value.Value))
+
+// ignore dominates; with match blocks present at least one must hold; no block is skipped.
+//@ func isMatch [C09]
+//@   ghost ignHit bool
+//@   ghost matHit bool
+//@   ghost ignCalls int
+//@   ghost matCalls int
+//@   at call Match.IsMatch#1 assert arg0 == old(ignore)[iter-1] && arg2 == e.Path.Name && arg3 == e && arg1 == ctx
+//@   at call Match.IsMatch#2 assert arg0 == old(match)[iter-1] && arg2 == e.Path.Name && arg3 == e && arg1 == ctx
+//@   after call Match.IsMatch#1 set ignHit = ignHit || result0
+//@   after call Match.IsMatch#1 set ignCalls = ignCalls + 1
+//@   after call Match.IsMatch#2 set matHit = matHit || result0
+//@   after call Match.IsMatch#2 set matCalls = matCalls + 1
+//@   loop 1 invariant !ignHit && ignCalls == iter && 0 <= iter && iter <= len(ignore) && !matHit && matCalls == 0
+//@   loop 2 invariant !ignHit && ignCalls == len(ignore) && !matHit && !found && matCalls == iter && 0 <= iter && iter <= len(match)
+//@   ensures result <==> !ignHit && (len(match) == 0 || matHit)
+//@   ensures result ==> ignCalls == len(ignore)
+//@   ensures !result && !ignHit ==> matCalls == len(match)
+
+//@ func defaultMatchStates [C09]
+//@   ensures cmd == CICommand ==> result == CIStates
+//@   ensures cmd != CICommand ==> result == AnyStates
+
+//@ func defaultRuleMatch [C09]
+//@   ensures len(match) == 0 ==> len(result) == 1 && result[0].State == defaultStates && result[0].Path == "" && result[0].Name == "" &&
+//@              result[0].Kind == "" && result[0].Label == nil && result[0].Annotation == nil && result[0].Command == nil && result[0].For == "" && result[0].KeepFiringFor == ""
+//@   ensures len(match) > 0 ==> len(result) == len(match)
+//@   ensures len(match) > 0 ==> forall i int :: 0 <= i && i < len(match) ==>
+//@              result[i].State == (len(old(match[i].State)) == 0 ? defaultStates : old(match[i].State)) &&
+//@              result[i].Path == old(match[i].Path) && result[i].Name == old(match[i].Name) && result[i].Kind == old(match[i].Kind) &&
+//@              result[i].Label == old(match[i].Label) && result[i].Annotation == old(match[i].Annotation) && result[i].Command == old(match[i].Command) &&
+//@              result[i].For == old(match[i].For) && result[i].KeepFiringFor == old(match[i].KeepFiringFor)
+//@   loop 1 invariant 0 <= iter && iter <= len(match) && len(dst) == iter && !sameArray(dst, match)
+//@   loop 1 invariant forall i int :: 0 <= i && i < len(match) ==> match[i] == old(match[i])
+//@   loop 1 invariant forall i int :: 0 <= i && i < iter ==>
+//@              dst[i].State == (len(old(match[i].State)) == 0 ? defaultStates : old(match[i].State)) &&
+//@              dst[i].Path == old(match[i].Path) && dst[i].Name == old(match[i].Name) && dst[i].Kind == old(match[i].Kind) &&
+//@              dst[i].Label == old(match[i].Label) && dst[i].Annotation == old(match[i].Annotation) && dst[i].Command == old(match[i].Command) &&
+//@              dst[i].For == old(match[i].For) && dst[i].KeepFiringFor == old(match[i].KeepFiringFor)
+//@   safe
